@@ -455,6 +455,9 @@ fn witness_roundtrip(w: &mut World, wit: usize, s: &mut Src, budget: usize) -> R
     }
 }
 
+/// single malformed request lines (complete, CRLF-terminated)
+const GARBAGE_LINES: [&[u8]; 4] = [b"BADMETHOD / HTTP/1.1\r\n", b"GET /x HTTP/9.9\r\n", b"GET\r\n", b"\0\xff\xfe garbage\r\n"];
+
 const GARBAGE: [&[u8]; 8] = [
     b"\0\xff\xfe garbage\r\n",
     b"BADMETHOD / HTTP/1.1\r\n\r\n",
@@ -1027,7 +1030,7 @@ pub fn c09() -> PropDef {
         id: "C09",
         subs: vec![("hist", c09_hist), ("macro", c09_macro), ("cap", c09_cap)],
         plan: c09_plan,
-        rule: "case = history with one witness client doing request/response round trips and 1..3 adversaries executing random sequences of {valid/invalid/partial/oversized sends, shutdown(RD), shutdown(WR), close, never read}, the application answering adversary requests arbitrarily late or never; skeletons for write-failure-with-requests-in-flight, hang-up-with-queued-output, garbage-then-close; oracle = requests() never returns Err, every witness round trip completes within 64 requests() calls, and once everything yielded is answered and every adversary is dead the server holds exactly one connection descriptor (/proc/self/fd); non-trivial = an adversary died or became unwritable with >=1 request in flight and the witness completed a round trip afterwards",
+        rule: "case = history with one witness client doing request/response round trips and 1..3 adversaries executing random sequences of {valid/invalid/partial/oversized sends, shutdown(RD), shutdown(WR), close, never read}, the application answering adversary requests arbitrarily late or never; skeletons for write-failure-with-requests-in-flight, hang-up-with-queued-output, garbage-then-close; oracle = requests() never returns Err, every witness round trip completes within 64 requests() calls, and once everything yielded is answered and every adversary is dead the server holds exactly one connection descriptor (/proc/self/fd); non-trivial = an adversary died or became unwritable with >=1 request in flight and the witness completed a round trip afterwards; sub 'cap': the witness plus 7..9 idle bystanders (server at or next to capacity), one client leaves with requests in flight, 1..3 newcomers connect, the answers come late: nobody receives anything foreign, respond() is accepted, the witness completes round trips, and after everybody else has left exactly one connection descriptor is held",
         assumptions: vec!["bounded liveness: 64 requests() calls per witness round trip", "a connection kept only for late responses may keep the epoll descriptor readable (not forbidden for misbehaving clients)"],
         single_threaded_world: true,
     }
@@ -1533,7 +1536,7 @@ pub fn c10() -> PropDef {
         id: "C10",
         subs: vec![("hist", c10_hist), ("micro", c10_micro)],
         plan: c10_plan,
-        rule: "case = history of 10..90 macro-operations over up to 64 client slots, biased to hover at 9..12 simultaneous connections in repeated fill/drain cycles: connect, close, shutdown(RDWR), send request, send partial request, respond (small or 300 KB), read, and bursts of several connects/closes between two polls; each macro-operation is followed by a settle; oracle = a client connecting while 10 are held receives exactly the fixed 503 message then EOF, one connecting while fewer are held is accepted (either outcome when a slot is freed in the same batch), never more than 10 served, existing connections undisturbed, descriptors held (via /proc/self/fd) between #open and #open+#dead-with-unanswered-requests at every quiescent point and exactly listener+epoll at the end; non-trivial = reached 10 held connections with >=1 refusal and >=1 later successful connect",
+        rule: "case = history of 10..90 macro-operations over up to 64 client slots, biased to hover at 9..12 simultaneous connections in repeated fill/drain cycles: connect, close, shutdown(RDWR), send request, send partial request, respond (small or 300 KB), read, and bursts of several connects/closes between two polls; each macro-operation is followed by a settle; oracle = a client connecting while 10 are held receives exactly the fixed 503 message then EOF, one connecting while fewer are held is accepted (either outcome when a slot is freed in the same batch), never more than 10 served, existing connections undisturbed, descriptors held (via /proc/self/fd) between #open and #open+#dead-with-unanswered-requests at every quiescent point and exactly listener+epoll at the end; non-trivial = reached 10 held connections with >=1 refusal and >=1 later successful connect; further operations: a client that does not read is sent 300 KB..1 MB so that a response is partly written when it hangs up; 2..4 requests (some with Expect) reaching the server in one read",
         assumptions: vec!["capacity decisions are judged at quiescent points (after a settle)"],
         single_threaded_world: true,
     }
@@ -2103,7 +2106,7 @@ pub fn c07() -> PropDef {
         id: "C07",
         subs: vec![("macro", c07_macro), ("hist", c07_hist)],
         plan: c07_plan,
-        rule: "case = history over up to 4 simultaneous clients (10 slots): connect, send tagged request (whole or in pieces), garbage, close, shutdown(WR/RD/RDWR), read, poll, respond to any outstanding request in any order with 0..320 KB; skeleton 'close with k requests in flight, new client connects (the kernel hands the server the descriptor number it just released), late answers before/after the new client's first request'; plus bounded-exhaustive macro-operation sequences; every request and response carries a tag naming its client; oracle = everything each client ever received parses (independent response reader) into responses that are its own application responses (byte-exact, at most once, in supply order) or server-generated replies justified by its own input, no foreign tag anywhere, respond() accepted; non-trivial = a client went away with >=1 request in flight, a later connect, and a later respond to the orphaned request",
+        rule: "case = history over up to 4 simultaneous clients (10 slots): connect, send tagged request (whole or in pieces), garbage, close, shutdown(WR/RD/RDWR), read, poll, respond to any outstanding request in any order with 0..320 KB; skeleton 'close with k requests in flight, new client connects (the kernel hands the server the descriptor number it just released), late answers before/after the new client's first request'; plus bounded-exhaustive macro-operation sequences; every request and response carries a tag naming its client; oracle = everything each client ever received parses (independent response reader) into responses that are its own application responses (byte-exact, at most once, in supply order) or server-generated replies justified by its own input, no foreign tag anywhere, respond() accepted; non-trivial = a client went away with >=1 request in flight, a later connect, and a later respond to the orphaned request; skeleton 'large batch': 2..4 clients pipeline 5..30 requests each, all answered through 1..3 enqueue_responses calls in yield order, round-robin or a drawn permutation (supply order is what each client must see)",
         assumptions: vec!["client sockets are created before the history and closed by dup2 so that descriptor numbers released by the server are reused by its next accept"],
         single_threaded_world: true,
     }
@@ -2125,6 +2128,8 @@ enum KOp {
     Respond(usize, usize),
     Settle,
     Flush,
+    /// a second response for an already answered request of an idle connection
+    Surplus(usize),
 }
 
 fn k_apply(w: &mut World, op: &KOp, next_slot: &mut usize) {
@@ -2188,6 +2193,9 @@ fn k_apply(w: &mut World, op: &KOp, next_slot: &mut usize) {
         KOp::Flush => {
             w.flush();
         }
+        KOp::Surplus(i) => {
+            w.respond_surplus(*i);
+        }
     }
 }
 
@@ -2207,7 +2215,8 @@ fn k_gen(s: &mut Src) -> (Vec<KOp>, bool) {
         }
     }
     for _ in 0..n {
-        let op = match s.weighted(&[5, 10, 3, 3, 2, 8, 6, 3, 2, 1]) {
+        let op = match s.weighted(&[5, 10, 3, 3, 2, 8, 6, 3, 2, 1, 2]) {
+            10 => KOp::Surplus(s.u8() as usize),
             9 => KOp::Flush,
             8 => KOp::SendAll(s.chance(128)),
             0 => KOp::Connect,
@@ -2320,6 +2329,9 @@ fn c18_kill(input: &Input, obs: &mut Obs) -> Result<(), Fail> {
         if partial || unsent_out || unanswered || at_cap {
             nontrivial_points += 1;
         }
+        if w.surplus_responds > 0 {
+            obs.label("surplus_response_before_kill");
+        }
         if partial {
             obs.label("kill_with_partial_request");
         }
@@ -2412,7 +2424,7 @@ pub fn c18() -> PropDef {
         id: "C18",
         subs: vec![("kill", c18_kill)],
         plan: c18_plan,
-        rule: "case = server history of <=52 operations (connect up to and beyond capacity, whole/split/partial requests, reads, closes, polls, responses up to 320 KB, settles), replayed once per position with the kill switch signalled at that position and followed by 5 requests() calls interleaved with further client activity, plus the whole history once without a kill switch and once with a registered, never signalled one; oracle = after the signal every call finds the epoll descriptor readable (poll(2), so it cannot block) and returns ShutdownEvent; before it, per-client received bytes, yielded requests and all return values are identical with and without the registered switch; non-trivial = at some kill point the server had a partial request buffered, unsent output, unanswered requests or >=10 connections; evaluations count (history, position) pairs",
+        rule: "case = server history of <=52 operations (connect up to and beyond capacity, whole/split/partial requests, reads, closes, polls, responses up to 320 KB, settles), replayed once per position with the kill switch signalled at that position and followed by 5 requests() calls interleaved with further client activity, plus the whole history once without a kill switch and once with a registered, never signalled one; oracle = after the signal every call finds the epoll descriptor readable (poll(2), so it cannot block) and returns ShutdownEvent; before it, per-client received bytes, yielded requests and all return values are identical with and without the registered switch; non-trivial = at some kill point the server had a partial request buffered, unsent output, unanswered requests or >=10 connections; evaluations count (history, position) pairs; variants: kill switch registered before/after start_server, already signalled when registered, being descriptor number 0; a surplus response (ServerRequest::process called again) for an idle connection",
         assumptions: vec!["histories in which requests() already failed before the signal are skipped at that position (other properties judge them)"],
         single_threaded_world: true,
     }
@@ -2564,8 +2576,69 @@ fn c11_server(input: &Input, obs: &mut Obs) -> Result<(), Fail> {
             // malformed chunk, sent alone, settled: the client reads the 400
             let n400_before = audit_client(&w, c)?.n400;
             w.clients[c].dirty = true;
-            let kind = s.below(5);
+            let kind = s.below(6);
             match kind {
+                5 => {
+                    // one burst: a malformed request padded to fill exactly one (or two) of the
+                    // server's 1024-byte reads, and well-formed requests right behind it. The reads
+                    // that hold the malformed part are each answered with a 400 and dropped; the
+                    // well-formed requests start a read of their own and are yielded like any other
+                    let m = s.range(1, 2);
+                    let mut burst = GARBAGE_LINES[s.below(GARBAGE_LINES.len())].to_vec();
+                    while burst.len() + 14 <= 1024 * m {
+                        // lines that are not request lines either; the last one fills up exactly
+                        let room = 1024 * m - burst.len();
+                        let mut len = s.range(14, 60).min(room);
+                        if room - len < 14 {
+                            len = room;
+                        }
+                        // never leave a block boundary in the middle of a line
+                        let to_block_end = 1024 - burst.len() % 1024;
+                        if len > to_block_end || (to_block_end - len > 0 && to_block_end - len < 14) {
+                            len = to_block_end;
+                        }
+                        let mut l = b"X-Fill: ".to_vec();
+                        l.resize(len - 2, b'z');
+                        l.extend_from_slice(b"\r\n");
+                        burst.extend_from_slice(&l);
+                    }
+                    if burst.len() != 1024 * m {
+                        return Err(("harness-burst".into(), format!("padding produced {} bytes", burst.len())));
+                    }
+                    let k = s.range(1, 4);
+                    let mut js = Vec::new();
+                    for _ in 0..k {
+                        let mut spec = spec_from(&mut s, false, false);
+                        spec.body = spec.body.min(60);
+                        let b = w.compose(c, &spec);
+                        js.push(w.clients[c].composed.len() - 1);
+                        burst.extend_from_slice(&b);
+                    }
+                    let y0 = w.clients[c].yielded.len();
+                    w.send_raw(c, &burst);
+                    w.settle(300, true);
+                    let a = audit_client(&w, c)?;
+                    if a.n400 != n400_before + m {
+                        return Err(("burst-400-count".into(), format!("{} server reads of malformed input were answered with {} 400 responses", m, a.n400 - n400_before)));
+                    }
+                    if w.clients[c].yielded[y0..] != js[..] {
+                        return Err((
+                            "later-request-fails".into(),
+                            format!("well-formed requests {:?} queued behind {} bytes of malformed input (one burst) produced yields {:?}", js, 1024 * m, &w.clients[c].yielded[y0..]),
+                        ));
+                    }
+                    while let Some(kk) = w.outstanding.iter().position(|o| o.c == c) {
+                        w.respond(kk, 200, s.range(0, 100));
+                    }
+                    w.settle(200, true);
+                    let a2 = audit_client(&w, c)?;
+                    if a2.n400 != a.n400 {
+                        return Err(("later-request-fails".into(), "a well-formed request behind the malformed burst was answered with a 400".into()));
+                    }
+                    obs.label("well_formed_requests_queued_behind_malformed_burst");
+                    after += 1;
+                    continue;
+                }
                 4 => {
                     // an over-long header line full of non-UTF-8 bytes
                     let mut g = b"GET / HTTP/1.1\r\nX".to_vec();
